@@ -471,7 +471,8 @@ def _obs_doc(doc):
 def run_impl(case):
     if case["kind"] == "dates":
         return _run_dates(case)
-    srv = _server(case)
+    # the fake server matches URLs up to the order of the query parameters (as a real one does)
+    srv = {_ckey(u): p for u, p in _server(case).items()}
     first = _first_url(case)
     log = []
     heads = []
@@ -480,7 +481,7 @@ def run_impl(case):
         log.append({"url": url, "auth": list(kw.get("auth") or ()), "extra": sorted(k for k in kw if k != "auth") + [len(a)]})
         if len(log) > case.get("cutoff", 50):
             raise _StopServer("cut-off")
-        p = srv.get(url)
+        p = srv.get(_ckey(url))
         if p is None or p["kind"] == "errdoc":
             return _Resp({"_status": "ERR", "_error": {"code": 404, "message": "not found"}}, status=404)
         if p["kind"] == "notjson":
@@ -492,7 +493,7 @@ def run_impl(case):
     def fake_head(url, *a, **kw):
         heads.append({"url": url, "headers": dict(kw.get("headers") or {})})
         h = {}
-        if url == first and case.get("total") is not None:
+        if _ckey(url) == _ckey(first) and case.get("total") is not None:
             h["x-total-count"] = case["total"]
         return _Resp(None, headers=h)
 
@@ -644,6 +645,11 @@ def _canon_url(u):
         return [u, []]
     path, q = u.split("?", 1)
     return [path, sorted(q.split("&"))]
+
+
+def _ckey(u):
+    import json as _j
+    return _j.dumps(_canon_url(u))
 
 
 def compare(case, obs, model):
@@ -835,7 +841,7 @@ def oracle(case, obs):
         return fails
     first = _first_url(case)
     if obs["is_count"]:
-        if [h["url"] for h in obs["heads"]] != [first] or obs["gets"]:
+        if [_ckey(h["url"]) for h in obs["heads"]] != [_ckey(first)] or obs["gets"]:
             fails.append({"kind": "wrong_query", "detail": f"count requests {obs['heads']} {obs['gets']}, expected one HEAD {first}"})
         exp = case.get("total")
         if exp is not None and obs["count"] != exp:
